@@ -23,7 +23,7 @@ def batch_cpp(pats, first_index=0):
     hv::sym_buf buf{b, n}; utils::no_stream s;
     auto rt = regex::dfa_match(rx%d.sm, match_options{}, source_point{}, buf.begin(), buf.end(), s);
     out[0] = rt.term_idx; out[1] = (uint32_t)rt.len; out[3] = (uint32_t)rx%d.sm.size(); out[4] = (uint32_t)rx%d.dfa_size;
-    out[2] = rx%d.match(buf) ? 1u : 0u;
+    hv::use_stream us; out[2] = rx%d.match(buf, us) ? 1u : 0u; out[5] = us.acc;
 }''' % (k, k, k, k, k))
     return '\n'.join(o) + '\n'
 
